@@ -197,15 +197,27 @@ fn recursive_type_def(from: &mut Kind, to: Kind, root: bool) {
         for v in object.known_mut().values_mut() {
             recursive_type_def(v, to.clone(), false);
         }
+        // unknown fields are mapped as well
+        if object.unknown_kind().contains_any_defined() {
+            object.set_unknown(to.clone());
+        }
     }
 
     if let Some(array) = from.as_array_mut() {
         for v in array.known_mut().values_mut() {
             recursive_type_def(v, to.clone(), false);
         }
+        if array.unknown_kind().contains_any_defined() {
+            array.set_unknown(to.clone());
+        }
     }
 
     if !root {
+        // an element that may be missing stays optional after the mapping
+        let optional = !from.is_never() && from.contains_undefined();
         *from = to;
+        if optional {
+            from.add_undefined();
+        }
     }
 }
